@@ -14,6 +14,7 @@ import (
 	"github.com/ipfs/go-graphsync"
 	gsimpl "github.com/ipfs/go-graphsync/impl"
 	gsnet "github.com/ipfs/go-graphsync/network"
+	"go.opentelemetry.io/otel/trace"
 )
 
 // RespEvent is one listener notification on the responder side.
@@ -37,6 +38,7 @@ type HookCall struct {
 	Cid    string
 	Index  int64
 	Exts   []string
+	Held   bool // requestor side: the request was still held (connection tag protected) when the hook ran
 }
 
 // NodeCfg configures a real graphsync node.
@@ -156,6 +158,10 @@ func (n *Node) start() {
 		n.Incoming = append(n.Incoming, HookCall{Step: w.Step, Kind: "in-req", Peer: name(p), Req: r.ID()})
 		n.mu.Unlock()
 		w.Effect("hook %s in-req %s from %s", n.Name, shortReq(r.ID()), name(p))
+		tag := name(p) + ":" + shortReq(r.ID())
+		a.AugmentContext(func(ctx context.Context) context.Context {
+			return trace.ContextWithSpanContext(ctx, TraceTag(tag))
+		})
 		if n.Cfg.Validate {
 			a.ValidateRequest()
 		}
@@ -185,7 +191,15 @@ func (n *Node) start() {
 	})
 	gs.RegisterIncomingResponseHook(func(p peer.ID, r graphsync.ResponseData, a graphsync.IncomingResponseHookActions) {
 		n.mu.Lock()
-		n.Responses = append(n.Responses, HookCall{Step: w.Step, Kind: "in-resp", Peer: name(p), Req: r.RequestID(), Status: r.Status(), Exts: extNames(r.(interface{ ExtensionNames() []graphsync.ExtensionName }).ExtensionNames())})
+		held := false
+		for _, k := range n.Host.cm.Protected() {
+			if k == string(p)+"|"+r.RequestID().Tag() {
+				held = true
+			}
+		}
+		n.Responses = append(n.Responses, HookCall{Step: w.Step, Kind: "in-resp", Peer: name(p), Req: r.RequestID(), Status: r.Status(), Held: held, Exts: extNames(r.(interface {
+			ExtensionNames() []graphsync.ExtensionName
+		}).ExtensionNames())})
 		n.mu.Unlock()
 		w.Effect("hook %s in-resp %s status=%d from %s", n.Name, shortReq(r.RequestID()), r.Status(), name(p))
 		if n.OnIncomingResponse != nil {
@@ -306,10 +320,40 @@ func (r *Req) Done() bool {
 	return r.ProgClosed && r.ErrClosed
 }
 
+// TraceTag makes a span context whose trace ID encodes a short tag; otel's
+// no-op tracers propagate it into every derived context, so the store can
+// tell which request a load belongs to.
+func TraceTag(tag string) trace.SpanContext {
+	var tid trace.TraceID
+	var sid trace.SpanID
+	copy(tid[:], []byte(tag))
+	tid[15] = 1
+	sid[7] = 1
+	return trace.NewSpanContext(trace.SpanContextConfig{TraceID: tid, SpanID: sid})
+}
+
+// TagOf extracts the tag from a context (empty if none).
+func TagOf(ctx context.Context) string {
+	if ctx == nil {
+		return ""
+	}
+	sc := trace.SpanContextFromContext(ctx)
+	if !sc.HasTraceID() {
+		return ""
+	}
+	tid := sc.TraceID()
+	b := tid[:15]
+	for len(b) > 0 && b[len(b)-1] == 0 {
+		b = b[:len(b)-1]
+	}
+	return string(b)
+}
+
 // NewReq registers a request to be issued when the scheduler picks its event.
 func (n *Node) NewReq(label string, to *Node, root cidlink.Link, sel ipld.Node, exts ...graphsync.ExtensionData) *Req {
 	r := &Req{Label: label, ID: ReqID(label), Node: n, To: to.ID, Root: root, Sel: sel, Exts: exts}
-	r.Ctx, r.Cancel = context.WithCancel(context.WithValue(context.Background(), graphsync.RequestIDContextKey{}, r.ID))
+	base := trace.ContextWithSpanContext(context.Background(), TraceTag(label))
+	r.Ctx, r.Cancel = context.WithCancel(context.WithValue(base, graphsync.RequestIDContextKey{}, r.ID))
 	n.W.cleanup = append(n.W.cleanup, r.Cancel)
 	n.mu.Lock()
 	n.Reqs[label] = r
